@@ -513,6 +513,9 @@ func (e *Engine) visitInstr(fr *frame, instr ssa.Instruction) continuation {
 			if known, v := e.know.decide(ct); known {
 				ct = e.ts.Bool(v)
 			} else if e.tryIfConvert(fr, instr, ct) {
+				if fr.block == nil {
+					return kReturn // the whole rest of the function was merged into one result
+				}
 				return kJump
 			}
 		}
